@@ -21,12 +21,12 @@ RULE = (
     "Hypothesis RuleBasedStateMachine; the case is (dataset spec, operation trace). Datasets: KS "
     "or ALF names, dense or sparse templates, raw data present (flat/npy/cbin, chunk length small "
     "enough that the 20-chunk sub-selection bites), 2-40 spikes. Rules: save_spike_clusters "
-    "(generated merge/split/reassign/skip applied to the last saved vector, saved as "
-    "int32/int64/uint32), save_metadata(field, mapping) with values in ints, floats (incl. "
+    "(generated merge/split/reassign/skip applied to the last saved vector, or an earlier saved / "
+    "the loaded vector again, saved as int32/int64/uint32), save_metadata(field, mapping) with values in ints, floats (incl. "
     "int-valued, nan), non-empty non-numeric strings that may contain tab, comma, quotes and "
     "spaces, None; write_foreign(file, kind) with kind in {valid TSV, valid CSV, empty file, "
     "header only, ragged rows, no cluster_id column, non-integer ids, binary garbage, generated "
-    "byte strings (fragments of headers, delimiters, quotes, NULs, invalid UTF-8), "
+    "byte strings (fragments of headers, delimiters, quotes, NULs, invalid UTF-8), a stray quote followed by >128 KiB, a 200 kB field, "
     "cluster_info.tsv redefining a saved field (must be ignored), an old-style CSV redefining saved fields (read before the TSV files, so the saved mapping wins)} - fields of foreign files are "
     "disjoint from saved field names and from each other; save_spikes_subset_waveforms(max per "
     "template, max channels, unit factor); close; reload. Steps <= 10 (quick) / 25 (thorough). "
@@ -59,7 +59,7 @@ _value = st.one_of(st.integers(-5, 50), st.floats(-100, 100, allow_nan=False),
 _mapping = st.lists(st.tuples(st.integers(0, 30), _value), max_size=5,
                     unique_by=lambda kv: kv[0]).map(lambda kv: [list(x) for x in kv])
 FOREIGN_KINDS = ['tsv', 'csv', 'empty', 'header', 'ragged', 'nocid', 'strids', 'binary', 'info',
-                 'fuzz', 'fuzz', 'csvdup']
+                 'fuzz', 'fuzz', 'csvdup', 'bigquote', 'bigfield']
 
 
 def _val(v):
@@ -87,6 +87,7 @@ class Interp(object):
         T = self.T
         # reference model
         self.clusters = [int(x) for x in T.spike_clusters]
+        self.history = [list(self.clusters)]
         self.meta = {}
         self.foreign = {}           # file name -> {field: {cid: value}} for valid files
         self.store = None
@@ -114,9 +115,14 @@ class Interp(object):
         if o == 'save_clusters':
             self._need_live()
             new = D.apply_curation(self.clusters, op['ops']) if op['ops'] else list(self.clusters)
+            if op.get('back') is not None:
+                # undo: an earlier assignment (the loaded one is number 0) is saved again
+                new = list(self.history[op['back'] % len(self.history)])
+                self.stats['resaved_earlier'] = True
             must_return('save_spike_clusters', self.m.save_spike_clusters,
                         np.array(new, dtype=op['dtype']))
             self.clusters = new
+            self.history.append(list(new))
             self._saved('clusters')
             if self.store is not None:
                 self.stats['_store_then_recluster'] = True
@@ -223,6 +229,11 @@ class Interp(object):
         elif k == 'fuzz':
             # arbitrary generated bytes (text fragments, delimiters, quotes, NULs, invalid UTF-8)
             p.write_bytes(bytes.fromhex(op.get('blob', '')))
+        elif k == 'bigquote':
+            # a stray double quote with more than 128 KiB after it (the csv module's field limit)
+            p.write_text('cluster_id\t%s\n1\t"%s\n' % (fa, 'good\n2\t' * 30000))
+        elif k == 'bigfield':
+            p.write_text('cluster_id\t%s\n1\t%s\n' % (fa, 'x' * 200000))
         elif k == 'binary':
             p.write_bytes(bytes((i * 37 + 11) % 256 for i in range(64)) + b'\x00\xff\xfe\t\n')
 
@@ -399,6 +410,11 @@ class Machine(_Base):
         self.do(dict(op='save_clusters', ops=ops, dtype=dtype))
 
     @precondition(lambda self: self._live())
+    @rule(back=st.integers(0, 3), dtype=st.sampled_from(['int32', 'int64', 'uint32']))
+    def save_earlier_clusters(self, back, dtype):
+        self.do(dict(op='save_clusters', ops=[], dtype=dtype, back=back))
+
+    @precondition(lambda self: self._live())
     @rule(field=st.sampled_from(FIELDS), mapping=_mapping)
     def save_metadata(self, field, mapping):
         self.do(dict(op='save_metadata', field=field, mapping=mapping))
@@ -450,6 +466,8 @@ def classify(case, info):
             nt = True
     if info['store']:
         labels.append('store-exported')
+    if info.get('resaved_earlier'):
+        labels.append('earlier-assignment-saved-again')
     if info.get('info_file'):
         labels.append('cluster_info-redefines-saved-field')
     s = case['init']['spec']
